@@ -197,7 +197,8 @@ type ContentSpec struct {
 	// eof | wrapped-eof | unexpected-eof | short-write | closed | canceled | open ("open": the
 	// source cannot be opened any more when the message is rendered although it could when it
 	// was attached — sources "fs" and "file" only; FailAt is irrelevant) | seek (source
-	// "readseeker" only: every Read works, Seek fails)
+	// "readseeker" only: every Read works, Seek fails) | isdir (source "file" only: the path
+	// opens, reading fails)
 	ErrKind string `json:"errKind,omitempty"`
 }
 
@@ -679,12 +680,20 @@ func BuildMsg(s MsgSpec, o BuildOpts) *Built {
 			dir := filepath.Join(ScratchDir, "files-"+s.Token)
 			_ = os.MkdirAll(dir, 0o755)
 			path := filepath.Join(dir, fmt.Sprintf("f%d-%s", len(b.Producers), sanitizeName(f.Name)))
+			_ = os.RemoveAll(path) // whatever an earlier scenario left there
 			fail(os.WriteFile(path, f.Content.Data, 0o644))
 			b.TmpFiles = append(b.TmpFiles, path)
 			if embed {
 				m.EmbedFile(path, append(fopts, mail.WithFileName(f.Name))...)
 			} else {
 				m.AttachFile(path, append(fopts, mail.WithFileName(f.Name))...)
+			}
+			if f.Content.Fail && f.Content.ErrKind == "isdir" {
+				// the path still opens, but every read fails: a directory sits there now
+				_ = os.Remove(path)
+				_ = os.Mkdir(path, 0o755)
+				b.TmpFiles = append(b.TmpFiles, path)
+				pr.Fired, pr.Vanished = 1, true
 			}
 			if f.Content.Fail && f.Content.ErrKind == "open" {
 				// the file disappears between attaching and rendering: every render meets it
